@@ -10,6 +10,7 @@ import (
 	"sort"
 	"time"
 
+	"cosmossdk.io/math"
 	"pgregory.net/rapid"
 )
 
@@ -34,6 +35,8 @@ type Profile struct {
 	SettleBeforeValueChange bool
 	HugeAmounts             bool
 	InvalidPct              int // percentage of user ops deliberately targeting invalid inputs
+	FocusDelPct             int // percentage of delegator draws forced to delegator 0 (packs buckets)
+	NoOverflowGuard         bool
 }
 
 const (
@@ -80,11 +83,20 @@ func (g *Gen) intn(name string, n int) int {
 	return rapid.IntRange(0, n-1).Draw(g.t, g.label(name))
 }
 
+// del draws a delegator index, biased to delegator 0 when the profile packs buckets.
+func (g *Gen) del() int {
+	if g.p.FocusDelPct > 0 && g.pct("focus-del", g.p.FocusDelPct) {
+		return 0
+	}
+	return g.intn("d", NumDels)
+}
+
 func (g *Gen) pickS(name string, xs []string) string { return xs[g.intn(name, len(xs))] }
 func (g *Gen) pickI(name string, xs []int64) int64   { return xs[g.intn(name, len(xs))] }
 func (g *Gen) pct(name string, p int) bool           { return g.intn(name, 100) < p }
 
 var ten = big.NewInt(10)
+var oneDec = math.LegacyOneDec()
 
 func pow10(k int) *big.Int { return new(big.Int).Exp(ten, big.NewInt(int64(k)), nil) }
 
@@ -197,6 +209,35 @@ func (g *Gen) Setup() {
 
 // dt draws a block-time step, biased towards boundaries of pending completions.
 func (g *Gen) dt() int64 {
+	d := g.dtRaw()
+	if g.p.NoOverflowGuard {
+		return d
+	}
+	// Exclusion by construction of the listed finding F-C17b (decay with rate > 1
+	// overflows after ~17 800 elapsed intervals and halts the chain): keep the number of
+	// elapsed decay intervals of such assets below 5 000. Counted in the evidence.
+	s := g.x.Post()
+	for _, dn := range s.AssetOrder {
+		a := s.Assets[dn]
+		if a.RewardChangeInterval > 0 && a.RewardChangeRate.GT(oneDec) {
+			elapsed := int64(s.Time.Sub(a.LastRewardChangeTime))
+			if elapsed < 0 {
+				elapsed = 0
+			}
+			maxDt := 5000*int64(a.RewardChangeInterval) - elapsed
+			if maxDt < 1 {
+				maxDt = 1
+			}
+			if d > maxDt {
+				d = maxDt
+				g.x.Label("excluded:F-C17b-overflow-guard")
+			}
+		}
+	}
+	return d
+}
+
+func (g *Gen) dtRaw() int64 {
 	s := g.x.Post()
 	var bounds []int64
 	for _, b := range s.Unb {
@@ -296,14 +337,31 @@ func (g *Gen) Step() {
 	invalid := g.pct("invalid", g.p.InvalidPct)
 	switch kind {
 	case KDelegate:
-		op := Op{K: KDelegate, D: g.intn("d", NumDels), V: g.intn("v", nv), Denom: g.anyDenom("denom"), Amt: g.freshAmount("amt")}
+		op := Op{K: KDelegate, D: g.del(), V: g.intn("v", nv), Denom: g.anyDenom("denom"), Amt: g.freshAmount("amt")}
 		x.Apply(op)
 	case KUndelegate, KRedelegate, KClaim:
 		var op Op
-		if len(s.Dels) == 0 || invalid {
+		if len(s.Dels) == 0 && !invalid {
+			// nothing to act on yet: open a position instead
+			x.Apply(Op{K: KDelegate, D: g.del(), V: g.intn("v", nv), Denom: g.anyDenom("denom"), Amt: g.freshAmount("amt")})
+			return
+		}
+		if invalid {
 			op = Op{K: kind, D: g.intn("d", NumDels), V: g.intn("v", nv), W: g.intn("w", nv), Denom: g.anyDenom("denom"), Amt: g.freshAmount("amt")}
 		} else {
-			d := s.Dels[g.intn("pos", len(s.Dels))]
+			cands := s.Dels
+			if g.p.FocusDelPct > 0 && g.pct("focus-pos", g.p.FocusDelPct) {
+				var mine []DelSnap
+				for _, d := range s.Dels {
+					if d.D == 0 {
+						mine = append(mine, d)
+					}
+				}
+				if len(mine) > 0 {
+					cands = mine
+				}
+			}
+			d := cands[g.intn("pos", len(cands))]
 			if d.D < 0 || d.D == 100 || d.V < 0 {
 				return
 			}
